@@ -23,7 +23,7 @@ def check_image(ctx, fmt, img, view, built, rng, **kw):
     """Watchdog wrapper: a reader that does not return within `limit` seconds is a violation, not a hung check."""
     import signal
 
-    limit = kw.pop("limit", 60)
+    limit = kw.pop("limit", 30)
     old = signal.signal(signal.SIGALRM, _on_alarm)
     signal.alarm(limit)
     try:
@@ -31,6 +31,7 @@ def check_image(ctx, fmt, img, view, built, rng, **kw):
     except Hang as e:
         a = dict(kw.get("attrs", {}))
         a.update({"format": fmt, "fail": "hang"})
+        ctx.extra["hangs"] = ctx.extra.get("hangs", 0) + 1
         ctx.violation(a, {"format": fmt, "img": img, "profile": built.note, "error": str(e)})
         return False
     finally:
